@@ -109,3 +109,45 @@ func ZZ_C02_diff_two_reg_imm() {
 	zzvt.Assert(a.Registers == b.Registers, "same-registers")
 	zzvt.Assert(a.Gas == b.Gas, "same-gas")
 }
+
+// zzDiffOps: one instruction of opcode lo..hi (except `skipOp`), followed by `tail` arbitrary
+// operand bytes, in both engines from the same arbitrary registers.
+func zzDiffOps(lo, hi, tail int, skipOp byte) {
+	op := byte(zzvt.Range("op", lo, hi))
+	zzvt.Assume(op != skipOp)
+	pc := 1
+	w := zzWindowB(pc+1+tail, pc, op, false)
+	regs := zzSymRegs()
+	a, b := w.interp(regs, 5), w.interp(regs, 5)
+	var ea, eb ExitReason
+	var pa, pb ProgramCounter
+	zzvt.Assert(!zzvt.Try(func() { ea, pa = w.run(a, false) }), "block-engine-no-go-panic")
+	zzvt.Assert(!zzvt.Try(func() { eb, pb = w.run(b, true) }), "single-step-engine-no-go-panic")
+	zzvt.Assert(ea == eb, "same-exit-reason")
+	zzvt.Assert(pa == pb, "same-next-counter")
+	zzvt.Assert(a.Registers == b.Registers, "same-registers")
+	zzvt.Assert(a.Gas == b.Gas, "same-gas")
+}
+
+// ZZ_C02_diff_three_reg: every three-register handler (opcodes 190..230) in both engines on the
+// same arbitrary register bytes and registers.
+//zz:workers=16 paths=60000 conccap=260
+func ZZ_C02_diff_three_reg() { zzDiffOps(190, 230, 2, 0) }
+
+// ZZ_C02_diff_two_reg: every two-register handler (opcodes 100..111, sbrk excepted: C05) in both
+// engines.
+//zz:workers=8 conccap=260
+func ZZ_C02_diff_two_reg() { zzDiffOps(100, 111, 1, 101) }
+
+// The C01 exec harnesses decide the pre-decoded handlers against appendix A for every operand
+// value; the machine of C01 is also run by the single-step engine (inner machines), whose
+// handlers are a second copy of the arithmetic. These aliases make the agreement of the two
+// copies, for every opcode of the register formats, part of C01.
+//zz:workers=16 paths=60000 conccap=260
+func ZZ_C01_single_step_two_reg_imm() { ZZ_C02_diff_two_reg_imm() }
+
+//zz:workers=16 paths=60000 conccap=260
+func ZZ_C01_single_step_three_reg() { ZZ_C02_diff_three_reg() }
+
+//zz:workers=8 conccap=260
+func ZZ_C01_single_step_two_reg() { ZZ_C02_diff_two_reg() }
